@@ -15,8 +15,40 @@ from cascade.low.core import DatasetId, Environment, JobInstance, Task2TaskEdge,
 
 # ----------------------------------------------------------------------------- generators
 
+def gen_job_replication(rng, allow_gpu=True):
+    """directed family: one (or two) datasets consumed by several tasks that become computable at different times,
+    so that on clusters with many single-worker hosts the dataset is replicated to several hosts while earlier
+    transfers / fetches of it are still in flight"""
+    tasks = [{"nOut": rng.choice([1, 2]), "gpu": False, "params": []}]          # t0: the shared producer
+    nb = rng.randint(2, 4)
+    for _ in range(nb):                                                          # independent sources of different "length"
+        tasks.append({"nOut": 1, "gpu": False, "params": []})
+        for _ in range(rng.randint(0, 2)):
+            tasks.append({"nOut": 1, "gpu": False, "params": [[len(tasks) - 1, 0]]})
+    tails = [i for i in range(1, len(tasks)) if not any([i, 0] in t["params"] for t in tasks)]
+    for b in tails:                                                              # consumers of t0 joined with each chain's tail
+        tasks.append({"nOut": 1, "gpu": allow_gpu and rng.random() < 0.1,
+                      "params": [[0, rng.randrange(tasks[0]["nOut"])], [b, 0]]})
+    allds = [[t, k] for t in range(len(tasks)) for k in range(tasks[t]["nOut"])]
+    p = rng.choice([0.0, 0.3, 1.0])
+    ext = [d for d in allds if rng.random() < p or (d[0] == 0 and rng.random() < 0.7)]
+    return {"tasks": tasks, "ext": ext}
+
+
 def gen_job(rng, maxn=8, allow_gpu=True):
     """spec = {"tasks":[{"nOut","gpu","params":[[t,k],...]}], "ext":[[t,k],...]} ; tasks are topologically numbered"""
+    if maxn >= 6 and rng.random() < 0.25:
+        return gen_job_replication(rng, allow_gpu)
+    if maxn >= 6 and rng.random() < 0.12:
+        # few independent components (isolated tasks / short chains): with more hosts than components the
+        # migration round-robin of assign() step II is exercised, incl. components drained within the round
+        tasks = []
+        for _ in range(rng.randint(2, 4)):
+            tasks.append({"nOut": 1, "gpu": False, "params": []})
+            if rng.random() < 0.4:
+                tasks.append({"nOut": 1, "gpu": False, "params": [[len(tasks) - 1, 0]]})
+        allds = [[t, 0] for t in range(len(tasks))]
+        return {"tasks": tasks, "ext": [d for d in allds if rng.random() < 0.5]}
     shape = rng.random()
     n = rng.randint(0, maxn) if shape > 0.05 else 0
     tasks = []
@@ -38,6 +70,8 @@ def gen_job(rng, maxn=8, allow_gpu=True):
 def gen_cluster(rng, spec, maxh=3, maxw=3):
     H = rng.randint(1, maxh)
     W = rng.randint(1, maxw)
+    if rng.random() < 0.3:            # many hosts with one worker each: maximises inter-host transfers
+        H, W = rng.randint(3, max(3, maxh + 1)), 1
     ws = [[h, w, rng.random() < 0.3] for h in range(H) for w in range(W)]
     if any(t["gpu"] for t in spec["tasks"]) and not any(w[2] for w in ws):
         ws[rng.randrange(len(ws))][2] = True
@@ -56,8 +90,20 @@ def tname(t):
     return f"t{t}"
 
 
+# output names: the DECLARATION order of a task's outputs is index order 0..nOut-1; the names are chosen so that
+# declaration order differs from lexicographic order (the runner/controller must not depend on sorted names)
+_ONAMES = {1: ["0"], 2: ["b", "a"], 3: ["c", "a", "b"]}
+
+
+def onames(nout):
+    return _ONAMES.get(nout) or [f"o{(k * 7 + 3) % nout:02d}" for k in range(nout)]
+
+
+_NOUT = {}   # task name -> nOut of the job currently built (set by build_job)
+
+
 def dsid(d):
-    return DatasetId(tname(d[0]), str(d[1]))
+    return DatasetId(tname(d[0]), onames(_NOUT[d[0]])[d[1]])
 
 
 def wid(w):
@@ -65,7 +111,8 @@ def wid(w):
 
 
 def un_ds(ds):
-    return [int(ds.task[1:]), int(ds.output)]
+    t = int(ds.task[1:])
+    return [t, onames(_NOUT[t]).index(ds.output)]
 
 
 def un_w(w):
@@ -79,8 +126,11 @@ def un_h(h):
 def build_job(spec):
     tasks = {}
     edges = []
+    _NOUT.clear()
     for i, t in enumerate(spec["tasks"]):
-        d = TaskDefinition(func="x", environment=[], input_schema={}, output_schema={str(o): "Any" for o in range(t["nOut"])}, needs_gpu=t["gpu"])
+        _NOUT[i] = t["nOut"]
+    for i, t in enumerate(spec["tasks"]):
+        d = TaskDefinition(func="x", environment=[], input_schema={}, output_schema={o: "Any" for o in onames(t["nOut"])}, needs_gpu=t["gpu"])
         tasks[tname(i)] = TaskInstance(definition=d, static_input_kw={}, static_input_ps={})
         for p, src in enumerate(t["params"]):
             edges.append(Task2TaskEdge(source=dsid(src), sink_task=tname(i), sink_input_kw=None, sink_input_ps=p))
@@ -252,13 +302,13 @@ class SimBridge:
     def to_event(self, e):
         import cloudpickle
         if e[0] == "pubW":
-            return self.DP(WorkerId(f"h{e[1]}", f"w{e[2]}"), DatasetId(tname(e[3]), str(e[4])), None)
+            return self.DP(WorkerId(f"h{e[1]}", f"w{e[2]}"), dsid([e[3], e[4]]), None)
         if e[0] == "pubT":
-            return self.DP(f"h{e[1]}", DatasetId(tname(e[2]), str(e[3])), e[4])
+            return self.DP(f"h{e[1]}", dsid([e[2], e[3]]), e[4])
         val = e[3]
         if self.none_output is not None and [e[1], e[2]] == self.none_output:
             val = None
-        return self.DTP(self.DTPH("", 0, DatasetId(tname(e[1]), str(e[2])), "cloudpickle.loads"), cloudpickle.dumps(val))
+        return self.DTP(self.DTPH("", 0, dsid([e[1], e[2]]), "cloudpickle.loads"), cloudpickle.dumps(val))
 
     def recv_events(self):
         self.calls_since_wait = 0
@@ -497,6 +547,9 @@ def oracle(res, fifo):
                 out.append(("C03", "requested-output-not-fetched", list(d)))
             elif got != ref[d]:
                 out.append(("C01", "wrong-value", [list(d), got, ref[d]]))
+    if oc != "finished" and spec["ext"]:
+        # C01: every dataset the caller asked for is delivered -- a run that never returns delivers nothing
+        out.append(("C01", "run-did-not-return-requested-outputs", oc))
     if res["shutdowns"] != 1:
         out.append(("C03", "shutdown-count", res["shutdowns"]))
     return out
